@@ -186,6 +186,47 @@ func goTruthy(v any) bool {
 	return true
 }
 
+// floating-point values: the same expression must print the same text in every printing position
+// ({{ }}, interpolated and bound attribute, v-text, v-html), namely fmt.Sprint of its value
+func c13Floats(r *Run) {
+	env := map[string]any{"big": 1234567.5, "small": 0.00001, "huge": 1e21, "half": 0.5, "two": 2.0, "neg": -2500000.25, "n": 3, "t": true, "f32": float32(1.5e7)}
+	type fe struct {
+		text string
+		want any
+	}
+	big, small, huge, half, two, neg := 1234567.5, 0.00001, 1e21, 0.5, 2.0, -2500000.25
+	exprs := []fe{
+		{"big", big}, {"small", small}, {"huge", huge}, {"half", half}, {"two", two}, {"neg", neg}, {"f32", float32(1.5e7)},
+		{"big * 2", big * 2}, {"small / 2", small / 2}, {"big + half", big + half}, {"neg - big", neg - big}, {"half * two", half * two},
+		{"big * n", big * 3}, {"t ? big : small", big}, {"!t ? big : small", small}, {"huge / two", huge / two}, {"small * small", small * small},
+	}
+	positions := []struct{ name, tpl string }{
+		{"interp", `<i data-m="1">{{ %s }}</i>`},
+		{"attr-interp", `<i data-m="1" title="{{ %s }}">x</i>`},
+		{"bound", `<i data-m="1" :title="%s">x</i>`},
+		{"v-text", `<i data-m="1" v-text="%s">x</i>`},
+		{"v-html", `<i data-m="1" v-html="%s">x</i>`},
+	}
+	for _, e := range exprs {
+		want := fmt.Sprint(e.want)
+		for _, p := range positions {
+			out, err := c03Render(fmt.Sprintf(p.tpl, e.text), env)
+			r.Eval("float:"+p.name+":"+e.text, true, nil)
+			r.Count("stream:floats(oracle only)")
+			got := "?"
+			if err != nil {
+				got = "error: " + err.Error()
+			} else if _, sink, found := c01Parse(out, "1", map[string]string{"attr-interp": "title", "bound": "title"}[p.name]); found {
+				got = strings.TrimSpace(sink)
+			}
+			if got != want {
+				r.Fail("a floating-point value prints differently at this position than fmt.Sprint of the expression's value", map[string]string{"oracle": "float-print", "position": p.name},
+					map[string]any{"expression": e.text, "position": p.name, "observed": got, "expected": want})
+			}
+		}
+	}
+}
+
 func init() { streams["C13"] = runC13 }
 
 func runC13(r *Run) {
@@ -230,6 +271,7 @@ func runC13(r *Run) {
 	for _, e := range []string{"item | double | . > 5", `name | upper | default("x", 2)`, "len(items)", "fn()", "a.b | f(1, 'x,y', z) | g", " x | y ", "a === b", "a !== b", "a====b", "x | f(a | b)", "f(a)(b)", "9fn(x)", "_f(x) | g()", "a - b", "a-b", "a ? b : c", "a?b", "price | . > 100 ? 'hi' : 'lo'", "x || y", "f(')')", "f(a, b))", "len(a) + len(b)", "len(a) == len(b)", "f(x) > g(y)", "f(a) && g(b)", "f(a) ? g(b) : h(c)", "f(a) - 1", "f(g(x))", "f(a)+g(b)", "f(a) | g(b)", "len(xs) + 2"} {
 		classify(e, true)
 	}
+	c13Floats(r)
 	// ---------- positions ----------
 	n := 900
 	if r.Thorough() {
